@@ -9,7 +9,8 @@ EXPLANATION = ("C17 (narrow): header writes are dominated by the capacity test i
                "the current length; the split branch of insert moves the old data behind the room for the inserted bytes; the "
                "u16/u32/u64 wrappers encode/decode with the macro of their own width, test the length first and remove "
                "sizeof(v) bytes; a duplicate owns fresh storage. The chunk arithmetic as such (headroom preservation, slack "
-               "split) is value-level and not decided.")
+               "split) is value-level and not decided."
+               " Also: header insert/append move and place bytes using the header length as it was before the call (R5).")
 
 
 def rule_r1(ctx):
